@@ -157,6 +157,25 @@ def basicCall (s : Sig) (payload : Option (List (String × V))) : Except Err Bou
   | .error e => .error e
   | .ok (args, kw) => call s args (kw ++ depKwargs s)
 
+/-- a payload entry named like a dependency parameter reaches the call as a keyword argument (only a `**kwargs` actor
+    lets such an entry through): `fn(*args, **kwargs, **dependency_kwargs)` then has a keyword twice -/
+def depKeyCollision (s : Sig) (payload : Option (List (String × V))) : Option String :=
+  match payload with
+  | none => none
+  | some fields =>
+    if s.varKw then (fields.find? fun e => hasKey e.1 (depKwargs s)).map (·.1) else none
+
+/-- the call the processor makes, with CPython's rejection of a repeated keyword at the call site: the execution fails
+    before the actor body runs (no invocation ever sees a dependency parameter that is not its provider's value) -/
+def basicCallChecked (s : Sig) (payload : Option (List (String × V))) : Except Err Bound :=
+  if !declOk s then .error .unsupported else
+  match basicConvert s payload with
+  | .error e => .error e          -- a missing required argument is found first, while converting
+  | .ok _ =>
+    match depKeyCollision s payload with
+    | some k => .error (.multiple k)
+    | none => basicCall s payload
+
 /-! ### PydanticConverter (validation = identity on well-typed values; extra entries ignored) -/
 
 def pydanticDeclOk (s : Sig) : Bool := declOk s && !s.varPos && !s.varKw
